@@ -117,6 +117,13 @@ def run_impl(p):
         if p["is"]:
             o["getlist"] = guarded(lambda: [int(x) for x in packed[list(p["is"])].unpack()])
             o["getlist_np"] = guarded(lambda: [int(x) for x in packed[np.array(p["is"])].unpack()])
+            # the selection is a bit array of its own: indexing and windows on it
+            def sub_ops():
+                sub = packed[list(p["is"])]
+                k = len(p["is"])
+                ws = [w for w in p["ws"] if w <= k][:2]
+                return [[int(sub[i]) for i in range(k)], [int(sub[k - 1])] if k else [], [[int(x) for x in sub.sliding_window(w)] for w in ws]]
+            o["sub_ops"] = guarded(sub_ops)
         else:
             o["getlist"] = canon([]); o["getlist_np"] = canon([])
         o["windows"] = guarded(lambda: [[int(x) for x in packed.sliding_window(w)] for w in p["ws"]])
@@ -148,6 +155,11 @@ def oracle(p):
     o["unpack_len"] = canon(len(a))
     o["getitem"] = canon(list(a))
     o["getlist"] = canon([a[i] for i in p["is"]])
+    if p["is"]:
+        sel = [a[i] for i in p["is"]]; k = len(sel)
+        ws = [w for w in p["ws"] if w <= k][:2]
+        sst = sum(x << (b * i) for i, x in enumerate(sel))
+        o["sub_ops"] = canon([sel, [sel[-1]], [[(sst >> (b * i)) % (1 << (w * b)) for i in range(k - w + 1)] for w in ws]])
     o["getlist_np"] = canon([a[i] for i in p["is"]])
     o["windows"] = {"k": "list", "v": [canon([(st >> (b * i)) % (1 << (w * b)) for i in range(len(a) - w + 1)]) for w in p["ws"]]}
     o["data"] = canon([(st >> (64 * r)) % (1 << 64) for r in range(-(-len(a) // n))])
